@@ -37,7 +37,7 @@ fn any_port(a15: bool, a14: bool) -> u16 {
 // @features sound,ay
 // @timeout 1500
 // @fn ZXController::write_io (AY select and data arms); ZXController::read_io (AY arm); select_ay_reg; write_ay_port; read_ay_port; ZXAyChip::select_reg; ZXAyChip::write; ZXAyChip::read; ZXAyChip::new
-// @sym machine, three (register number, value) writes and a final register selection, all through fully symbolic port addresses of the decode classes A15=A14=1,A1=0 (select/read-back) and A15=1,A14=0,A1=0 (data); frame time
+// @sym machine, three (register number, value) writes and a final register selection, all through fully symbolic port addresses of the decode classes A15=A14=1,A1=0 (select/read-back) and A15=1,A14=0,A1=0 (data); frame time fixed (1000)
 // @assert reading the AY data port returns the value last written to the selected register, register numbers taken modulo 16 (never-written registers read 0); every data write reaches the sound generator as (register number mod 16, value) in order; AY port cycles never touch the border colour or the paging latch
 // @bound 3 register writes + 1 read-back
 // @stub libm::sqrt -> identity (unsupported SIMD intrinsic); <AymPrecise as AymBackend>::write_register -> logger (generator decode is c18_register_decode in the aym crate); ZXMixer::process -> no-op; ZXScreen::process_clocks -> no-op
@@ -51,9 +51,9 @@ fn any_port(a15: bool, a14: bool) -> u16 {
 fn c18_ay_port_readback() {
     let m = crate::emulator::verif_hooks::any_machine();
     let mut c = ch::mk_controller(m, FbCtx { wx: 0, wy: 0 }, false, false);
-    let t: usize = kani::any();
-    kani::assume(t < ch::spec_frame_len(m));
-    c.frame_clocks = t;
+    // port timing is C04's subject: start at a literal frame time so that no frame end can fall into
+    // the eight port cycles (every frame end would drag the video/audio frame switch into the query)
+    c.frame_clocks = 1000;
     unsafe {
         GEN_LOG_LEN = 0;
     }
